@@ -374,6 +374,9 @@ def run(ctx, report):
     # byte emission: the loop of asm_all_candidate that turns a candidate (prefix, opcode bytes, displacement, immediates) into bytes is evaluated from its source
     emission_rule(R1, X)
 
+    R15 = report.rule('C02.D15', 'the direct-offset rows (A0-A3) are offered for an absolute address only: the accepting branch of asm_candidates evaluated on operands with no register, '
+                      'with a register of coefficient 1 / 2 / 4 / 8 and with the merged coefficients 3 / 5 / 9', floor=8)
+    moffs_guard_rule(R15, X)
     R3 = report.rule('C02.D3', 'one operand-size mode drives the 0x66 prefix, the immediate width and the emitted candidate', floor=4)
     ac = arch.method('x86_mn', 'asm_candidates')
     prefix_guard = None
@@ -1086,7 +1089,61 @@ def emission_rule(R1, X):
     else:
         R1.ok(inst, sample='the emission loop evaluated on %d candidates (6 displacement kinds x 8 immediate lists x 2 operand-size modes): bytes and symbol offsets are exact' % n_ok, nontrivial=True)
 
+
+def moffs_guard_rule(R, X):
+    """The direct-offset forms (A0-A3, operand kind `mim`) can encode an absolute address only.  The branch of asm_candidates that accepts a candidate for such a row is
+    evaluated, from its source, on memory operands: [disp] is accepted with that displacement; an operand that names a register - with the coefficient 1, a scale, or the
+    sum of base and index written with one register (3, 5, 9) - is refused (accepting it silently drops the register: `a1 34 12 00 00` for `mov eax, [ecx+ecx*2+0x1234]`)."""
+    from ..consteval import Evaluator, Obj, Native, NotConst, PyRaise
+    from .. import consteval as _ce
+    from .. import simpeval as _SE
+    arch, E, afs = X.arch, X.env, X.afs
+    ac = arch.method('x86_mn', 'asm_candidates')
+    br = [n for n in ast.walk(ac) if isinstance(n, ast.If) and u(n.test).replace(' ', '') in ('dib==mim', 'mim==dib')]
+    if len(br) != 1:
+        raise AnalysisError('asm_candidates: the branch for the direct-offset operand kind (dib == mim) was not found (%d candidates)' % len(br))
+    log = Obj('log')
+    for k_ in ('debug', 'error', 'info', 'warning', 'warn'):
+        setattr(log, k_, Native(lambda *a: None))
+    scope = dict((k_, v_) for k_, v_ in E.items() if isinstance(v_, (str, int, bool, list, tuple, dict)) or v_ is None)
+    scope.update(_SE.INT_CLASSES)
+    for fname_, fnode_ in arch.funcs.items():
+        scope.setdefault(fname_, fnode_)
+    scope.update({'log': log, 'x86_afs': afs})
+    cases = [('[0x1234]', {afs.ad: afs.u32, afs.size: afs.u32, afs.imm: 0x1234}, True),
+             ('[0x1234] (as the AT&T parser delivers it)', {afs.ad: afs.u32, afs.size: afs.u32, afs.imm: 0x1234, 'txt': '0x1234'}, True)]
+    for coef in (1, 2, 3, 4, 5, 8, 9):
+        cases.append(('[ecx*%d+0x1234]' % coef, {afs.ad: afs.u32, afs.size: afs.u32, afs.imm: 0x1234, 1: coef}, False))
+    cases.append(('[ebx+esi+0x10]', {afs.ad: afs.u32, afs.size: afs.u32, afs.imm: 0x10, 3: 1, 6: 1}, False))
+    cases.append(('es:[0x1234]', {afs.ad: afs.u32, afs.size: afs.u32, afs.imm: 0x1234, afs.segm: 0}, None))       # the override is a prefix by then: not judged
+    for text, opnd, want in cases:
+        loc = {'args_sample': [dict(opnd)], 'good_c': True, 'opc_add': [], 'parsed_args': [], 'dib_out': [], 'dib': E.get('mim'), 'self': Obj('self'), 'c': Obj('c')}
+        ev = Evaluator({})
+        ev.env = dict(scope)
+        try:
+            ev.exec_stmts(br[0].body, loc)
+        except _ce._Break:
+            pass
+        except PyRaise as e:
+            R.violation('moffs[%s]' % text, 'moffs-guard:raises', 'the direct-offset branch of asm_candidates raises %s on %s' % (e.exc_name, text), where(arch, br[0]))
+            continue
+        except NotConst as e:
+            raise AnalysisError('asm_candidates: the direct-offset branch is outside the evaluable subset on %s: %s' % (text, e))
+        accepted = bool(loc.get('good_c')) and len(loc['opc_add']) == 1
+        inst = 'moffs[%s]' % text
+        if want is None:
+            R.ok(inst, nontrivial=False)
+        elif accepted == want and (not want or int(loc['opc_add'][0].get(afs.imm, -1)) == opnd[afs.imm]):
+            R.ok(inst, sample='%s: %s by the direct-offset row' % (text, 'accepted' if want else 'refused'), nontrivial=True)
+        elif want:
+            R.violation(inst, 'moffs-guard:refuses-absolute', 'the direct-offset row refuses %s (or encodes another offset): the short form of an absolute address is lost' % text, where(arch, br[0]))
+        else:
+            R.violation(inst, 'moffs-guard:accepts-register', 'the direct-offset row (A0-A3) accepts %s: the candidate encodes the displacement alone and silently drops the register'
+                        % text, where(arch, br[0]), witness="asm('mov eax, DWORD PTR [ecx+ecx*2+0x1234]')[0] == a1 34 12 00 00")
+
 MUTANTS = [
+    ('moffs-guard-scale-coefficients-only', 'miasmx/arch/ia32_arch.py', "                        if not k in [x86_afs.imm, x86_afs.ad, x86_afs.size, 'txt']:\n                            log.debug(\"mim: cannot encode reg \")",
+     "                        if type(k) == int and r[k] in (1, 2, 4, 8):\n                            log.debug(\"mim: cannot encode reg \")", 'C02.D15'),
     ('mem16-widens-registers', 'miasmx/arch/ia32_arch.py', '                    if is_address(a) and a[x86_afs.size] == u16:\n                        a[x86_afs.size] = u32\n                        a[x86_afs.ad] = u32\n', '                    if a[x86_afs.size] == u16:\n                        a[x86_afs.size] = u32\n                        if a[x86_afs.ad]:\n                            a[x86_afs.ad] = u32\n', 'C02.D14'),
     ('condlist-alias-swapped', 'miasmx/arch/ia32_arch.py', '             ["nge","l"],\n             ["nl","ge"],\n             ["ng","le"],', '             ["ng","l"],\n             ["nl","ge"],\n             ["nge","le"],', 'C02.D10'),
     ('in-al-dx-66', 'miasmx/arch/ia32_arch.py', "                if name in ['in', 'out'] and \\\n                        dict([_ for _ in a.items() if _[0] != 'txt']) == r_dx:\n                    # neither does the port register of in/out (always dx)\n                    continue\n", "", 'C02.D3'),
